@@ -26,6 +26,23 @@ MANIFEST = {
 }
 
 IMPORTS = ["LdkV.Model.SphinxInst"]
+PAY_IMPORTS = ["LdkV.Model.SphinxInst", "LdkV.Model.OnionPayload"]
+GUARD_CFG = os.path.join(core.VERIF, "tools", "props", "c14", "C14Guards.json")
+KEYSEND_TLV = 5482373484
+INVREQ_TLV = 77777
+FAIL_DATA_MAX = 65535 - 2 - 42 - 924  # largest failure packet data that still fits with attribution data
+
+
+def generate(ctx):
+    """rs2v: the guards / index arithmetic / constants of onion_utils.rs that the model transliterates
+    (anchored expressions), regenerated on every run into Gen/C14Guards.v; Proofs/C14Gen.v ties them to the model."""
+    from rs2v import rs2v as R
+    with core.Lock("rs2v-gen"):
+        text, meta = R.translate_with_meta(json.load(open(GUARD_CFG)), repo=core.REPO, config_dir=os.path.dirname(GUARD_CFG))
+        core.write_if_changed(os.path.join(core.COQ, "Gen", "C14Guards.v"), text)
+    ctx.gen_meta = meta
+    return meta
+
 PRELUDE = "From Coq Require Import String List ZArith.\nImport ListNotations.\nOpen Scope string_scope.\nOpen Scope Z_scope.\n"
 ONION_LEN = 1300
 MAX_VALUE_MSAT = 21_000_000 * 100_000_000 * 1000
@@ -170,8 +187,10 @@ class Run:
     def bump(self, k, n=1):
         self.hist[k] = self.hist.get(k, 0) + n
 
-    def impl(self, lines, timeout=1500):
-        rc, out = self.ctx.run_bin("h_onion", "\n".join(lines) + "\n", timeout=timeout)
+    def impl(self, lines, timeout=1500, release=False):
+        if not lines:
+            return []
+        rc, out = self.ctx.run_bin("h_onion", "\n".join(lines) + "\n", timeout=timeout, release=release)
         out = [l for l in out if l.strip()]
         res = []
         if rc != 0 or len(out) != len(lines):
@@ -512,6 +531,275 @@ def run_fulfill_family(R, rng, tier, with_model):
                                "model": got[first][:100] if first is not None else None, "impl": j["stages"][first][:100] if first is not None else None})
 
 
+def parse_tlv_stream(b):
+    """independent TLV record parser (Python): [(type, value bytes)] or None"""
+    out = []
+    i = 0
+
+    def big(i):
+        x = b[i]
+        if x < 253:
+            return x, i + 1
+        n = {253: 2, 254: 4, 255: 8}[x]
+        return int.from_bytes(b[i + 1:i + 1 + n], "big"), i + 1 + n
+    try:
+        while i < len(b):
+            t, i = big(i)
+            l, i = big(i)
+            if i + l > len(b):
+                return None
+            out.append((t, b[i:i + l]))
+            i += l
+    except (IndexError, KeyError):
+        return None
+    return out
+
+
+def gen_rcpt(rng, cid, nu, k, keysend, meta_len, custom, invreq):
+    """nu unblinded forwarding hops before the (introduction node | recipient); k blinded hops (0 = unblinded recipient)."""
+    n = nu + max(k, 1)
+    height = rng.choice([rng.range(100, 250), rng.range(70000, 900000)])
+    hops = []
+    for i in range(n):
+        scid = rng.choice([rng.below(2 ** 64), rng.below(2 ** 24)]) or 1
+        fee = rng.below(rng.choice([200, 60000, 2 ** 31])) + 1
+        if k > 0 and n - k <= i < n - 1:
+            # LDK (debug) requires the intermediate blinded hops' TLVs to serialize to the same padded size
+            fee = rng.range(1, 200)
+        delta = rng.range(48, 90)
+        hops.append("%s:%d:%d:%d" % (hx("node", cid, i), scid, fee, delta))
+    final_value = int(hops[-1].split(":")[2])
+    total = final_value + rng.choice([0, 0, rng.below(10 ** 6)])
+    preimage = hx("preimage", cid)
+    phash = hashlib.sha256(bytes.fromhex(preimage)).hexdigest() if keysend else hx("hash", cid)
+    meta = rbytes(rng, meta_len) if meta_len else "-"
+    tl = ";".join("%d:%s" % (t, rbytes(rng, l) if l else "") for t, l in sorted(custom)) if custom else "-"
+    secret = "-" if k > 0 else hx("secret", cid)
+    return "rcpt sess=%s prng=%s hash=%s height=%d hops=%s blinded=%d secret=%s bsecret=%s total=%d meta=%s tlvs=%s keysend=%s invreq=%d" % (
+        hx("sess", cid), hx("prng", cid), phash, height, ",".join(hops), k, secret, hx("bsecret", cid), total, meta, tl,
+        preimage if keysend else "-", 1 if invreq else 0)
+
+
+CUSTOM_SETS = {
+    "none": [],
+    "below": [(65537, 3)],
+    "above": [(KEYSEND_TLV + 1, 2)],
+    "straddle": [(65536, 0), (70001, 5), (INVREQ_TLV - 1, 1), (INVREQ_TLV + 1, 2), (KEYSEND_TLV - 1, 3), (KEYSEND_TLV + 1, 1), (2 ** 64 - 1, 4)],
+}
+
+
+def coq_opt(x):
+    return '(hx_opt "%s")' % (x if x is not None else "-")
+
+
+def coq_tlvs(custom):
+    return "(hx_tlvs [%s])" % "; ".join('(%d, "%s")' % (t, v) for t, v in custom)
+
+
+def rcpt_payload_terms(line, j):
+    """Gallina terms (Model/OnionPayload.v) for each hop's payload of an rcpt case, from the route and the recipient
+    fields alone (only the encrypted blinded-path blobs, the blinding point and the invoice request come from the Rust side)."""
+    a = kvs(line)
+    hops = [h.split(":") for h in a["hops"].split(",")]
+    n = len(hops)
+    k = int(a["blinded"])
+    height = int(a["height"])
+    fee = [int(h[2]) for h in hops]
+    dl = [int(h[3]) for h in hops]
+    scid = [int(h[1]) for h in hops]
+    final_value = fee[-1]
+    custom = [] if a["tlvs"] == "-" else [(int(t.split(":")[0]), t.split(":")[1]) for t in a["tlvs"].split(";")]
+    ks = None if a["keysend"] == "-" else a["keysend"]
+    meta = None if a["meta"] == "-" else a["meta"]
+    terms = []
+    if k == 0:
+        for i in range(n - 1):
+            terms.append("PForward %d %d %d" % (scid[i + 1], sum(fee[i + 1:]), height + sum(dl[i + 1:])))
+        pd = 'Some (hx "%s", %d)' % (a["secret"], int(a["total"])) if a["secret"] != "-" else "None"
+        terms.append("PReceive (%s) %s %s %s %d %d" % (pd, coq_opt(meta), coq_opt(ks), coq_tlvs(custom), final_value, height + dl[-1]))
+    else:
+        nu = n - k  # forwarding hops before the introduction node
+        bfee = sum(fee[n - k:n - 1])
+        bdelta = sum(dl[n - k:n - 1]) + dl[-1]
+        # amounts / expiries the unblinded hops are told: everything after them, the blinded path as one hop
+        tail_fees = [fee[i] for i in range(nu)] + [bfee]
+        tail_dl = [dl[i] for i in range(nu)] + [bdelta]
+        for i in range(nu):
+            terms.append("PForward %d %d %d" % (scid[i + 1], sum(tail_fees[i + 1:]) + final_value, height + sum(tail_dl[i + 1:])))
+        enc = j["enc_tlvs"]
+        for b in range(k):
+            bp = j["bp"] if b == 0 else None
+            if b < k - 1:
+                terms.append('PBlindedForward (hx "%s") %s' % (enc[b], coq_opt(bp)))
+            else:
+                terms.append('PBlindedReceive %d %d %d (hx "%s") %s %s %s %s' % (
+                    final_value, int(a["total"]), height, enc[b], coq_opt(bp), coq_opt(ks), coq_tlvs(custom),
+                    coq_opt(j["invreq"] if a["invreq"] == "1" else None)))
+    return terms, [t for t, _ in custom]
+
+
+def run_rcpt_family(R, rng, tier, with_model, release=False):
+    """Recipient payloads: unblinded / one-hop blinded / multi-hop blinded final hops x keysend x metadata x custom TLV
+    sets x invoice request, every hop peeled with the real code; payload assembly and TLV order against the model."""
+    ctx = R.ctx
+    lines = []
+    cid = 0
+    tagp = "rr" if release else "rc"
+    for k in (0, 1, 2, 3):
+        for keysend in (False, True):
+            for meta_len in (0, 5, 400):
+                for cname in ("none", "below", "above", "straddle"):
+                    for invreq in (False, True):
+                        if tier == "quick" and k == 3 and (meta_len == 5 or cname == "below"):
+                            continue
+                        nu = [1, 0, 2][cid % 3]
+                        lines.append(gen_rcpt(rng.fork("%s%d" % (tagp, cid)), "%s%d" % (tagp, cid), nu, k, keysend, meta_len, CUSTOM_SETS[cname], invreq))
+                        cid += 1
+    impl = (lambda ls: R.impl(ls, release=True)) if release else R.impl
+    res = impl(lines)
+    if res is None:
+        return
+    # largest admissible custom TLV: fill the packet exactly, and one byte more
+    lines2 = []
+    for l, j in zip(lines, res):
+        a = kvs(l)
+        if not j or not j.get("built") or a["tlvs"] != "-" or a["meta"] != "-" or len(lines2) >= (24 if tier == "quick" else 96):
+            continue
+        room = 1300 - j["payload_total"]
+        for ty in (65537, KEYSEND_TLV + 7):
+            tlen = len(bigsize(ty))
+            for L in (room - tlen - 8, room - tlen - 7, room - tlen - 6, room - tlen - 5, room - tlen - 4, room - tlen - 3):
+                if L > 0:
+                    lines2.append(l.replace(" tlvs=- ", " tlvs=%d:%s " % (ty, rbytes(rng.fork("mx%d/%d" % (len(lines2), L)), L))))
+    res2 = impl(lines2) or []
+    allc = [(l, j) for l, j in zip(lines + lines2, res + res2) if j]
+    totals = {}
+    for l, j in allc:
+        R.bump(("rel_" if release else "") + "rcpt_" + (j.get("final", "refused") if j.get("built") else "refused"))
+        if "payload_total" in j and -3 <= j["payload_total"] - 1300 <= 3:
+            totals[j["payload_total"] - 1300] = totals.get(j["payload_total"] - 1300, 0) + 1
+    ctx.coverage[("release_" if release else "") + "rcpt_payload_total_minus_1300_near_boundary"] = totals
+    if not with_model:
+        return
+    # (1) payload assembly, byte for byte, for every hop of every case; (2) the receiving side's TLV loop on the final payload
+    exprs, refs = [], []
+    for l, j in allc:
+        if not j.get("payloads"):
+            continue
+        try:
+            terms, ctypes = rcpt_payload_terms(l, j)
+            contents = [strip_frame(p) for p in j["payloads"]]
+        except (ValueError, KeyError, IndexError) as ex:
+            R.disagree.append({"topic": "recipient payload framing", "input": l[:400], "why": repr(ex)})
+            continue
+        if len(terms) != len(contents):
+            R.disagree.append({"topic": "number of payloads", "input": l[:400], "model": len(terms), "impl": len(contents)})
+            continue
+        exprs.append("(map show_payload [%s], show_tlv_check [%s] \"%s\")" % ("; ".join(terms), "; ".join(str(t) for t in ctypes), contents[-1]))
+        refs.append((l, j, contents))
+    vals = ctx.coq_eval("c14_rcpt" + ("_rel" if release else ""), PAY_IMPORTS, exprs, prelude=PRELUDE, shards=16, timeout=1500)
+    for (l, j, contents), v in zip(refs, vals):
+        cut = v.rindex('("')
+        got = strs(v[:cut])
+        chk = strs(v[cut:])[0]
+        chk_types = ints_after(v, '"' + chk + '"')
+        R.n_model += 1
+        R.bump("model_payload_assembly")
+        if got != contents:
+            first = next((q for q, (x, y) in enumerate(zip(got, contents)) if x != y), 0)
+            mt = parse_tlv_stream(bytes.fromhex(got[first])) or []
+            it = parse_tlv_stream(bytes.fromhex(contents[first])) or []
+            R.disagree.append({"topic": "payload TLV assembly", "input": l[:500], "hop": first, "model_types": [t for t, _ in mt], "impl_types": [t for t, _ in it],
+                               "model": got[first][:160], "impl": contents[first][:160]})
+            continue
+        recs = parse_tlv_stream(bytes.fromhex(contents[-1]))
+        want_types = [t for t, _ in recs] if recs is not None else None
+        if chk != "ok" or chk_types != want_types:
+            R.disagree.append({"topic": "TLV loop on the final payload (Codec/Tlv.v)", "input": l[:500], "model": [chk, chk_types], "impl_types": want_types})
+    # (3) whole packets with blinded tails through the Sphinx model (sample)
+    if release:
+        return
+    pk = [(l, j) for l, j in allc if j.get("built") and int(kvs(l)["blinded"]) > 0][:: (9 if tier == "quick" else 3)][: (5 if tier == "quick" else 40)]
+    exprs = []
+    for l, j in pk:
+        a = kvs(l)
+        exprs.append('show_build_and_peel 1300 "%s" %s "%s"' % (a["prng"], coq_hops([q["ss"] for q in j["keys"]], [strip_frame(p) for p in j["payloads"]]), a["hash"]))
+    vals = ctx.coq_eval("c14_rcpt_pk", IMPORTS, exprs, prelude=PRELUDE, shards=min(16, max(1, len(exprs))), timeout=1500)
+    for (l, j), v in zip(pk, vals):
+        got = strs(v)
+        want = [j["packet"]]
+        for p in j["peels"]:
+            raw = p["raw"]
+            want.append("E:" + raw["err"] if "err" in raw else ("F:" + raw["payload"] if raw["next"] is None else "N:%s:%s" % (raw["payload"], raw["next"])))
+        R.n_model += 1
+        R.bump("model_blinded_packets")
+        if got != want:
+            first = next((q for q, (x, y) in enumerate(zip(got, want)) if x != y), min(len(got), len(want)))
+            R.disagree.append({"topic": "onion with a blinded tail: packet / per-hop peel", "input": l[:500], "first_difference_at": first,
+                               "model": got[first][:120] if first < len(got) else None, "impl": want[first][:120] if first < len(want) else None})
+    if pk:
+        ctx.samples.append({"rcpt_case": pk[0][0][:260], "final": pk[0][1]["final"], "hops": len(pk[0][1]["peels"])})
+
+
+def run_failb_family(R, rng, tier, with_model, release=False):
+    """Failure packets at the message-size boundary: packet data lengths around FAIL_DATA_MAX (update_fail_htlc of
+    LN_MAX_MSG_LEN - 2 .. + 2 bytes), built at every hop position (with attribution data, or as a node without
+    attribution support would), relayed by the real code back to the sender."""
+    ctx = R.ctx
+    lines = []
+    k = 0
+    ns = [1, 2, 3, 6] if tier == "quick" else [1, 2, 3, 4, 6, 10, 20, 21, 27]
+    plens = [FAIL_DATA_MAX - 2, FAIL_DATA_MAX - 1, FAIL_DATA_MAX, FAIL_DATA_MAX + 1, FAIL_DATA_MAX + 2, 65535 - 44, 292, 40000]
+    for n in ns:
+        ats = range(n) if (n <= 3 or tier != "quick") else sorted(set([0, n // 2, n - 1]))
+        for at in ats:
+            for plen in plens:
+                for legacy in (0, 1):
+                    if tier == "quick" and plen in (292, 40000, 65535 - 44) and (at + legacy + n) % 3:
+                        continue
+                    holds = [rng.fork("fb%d/%d" % (k, q)).below(2 ** 32) for q in range(at + 1)]
+                    lines.append("failb sess=%s hops=%s at=%d code=%d plen=%d legacy=%d holds=%s" % (
+                        hx("sess", "fb%d" % k), path_hops("fb%d" % k, n), at, CODES[k % len(CODES)], plen, legacy, ",".join(map(str, holds))))
+                    k += 1
+    res = (R.impl(lines, release=True) if release else R.impl(lines))
+    if res is None:
+        return
+    hist = {}
+    for l, j in zip(lines, res):
+        if not j:
+            continue
+        a = kvs(l)
+        key = "plen%+d_%s" % (int(a["plen"]) - FAIL_DATA_MAX, "legacy" if a["legacy"] == "1" else "attr") if abs(int(a["plen"]) - FAIL_DATA_MAX) <= 2 else "other"
+        kept = "refused" if not j["built"] else ("kept" if all(st["attr"] for st in j["stages"][1:]) and (j["stages"][0]["attr"] or len(j["stages"]) > 1) else "dropped")
+        hist.setdefault(key, {}).setdefault(kept, 0)
+        hist[key][kept] += 1
+        R.bump(("rel_" if release else "") + "failb_cases")
+    ctx.coverage[("release_" if release else "") + "failb_boundary_histogram"] = hist
+    if not with_model or release:
+        return
+    # the model's guard (and packet length arithmetic) at every length used
+    used = sorted(set(int(kvs(l)["plen"]) for l in lines))
+    exprs = ["map (fun L => (Z.of_nat (32 + List.length (failure_body 0 (zeros (L - 38)) DEFAULT_MIN_FAILURE_PACKET_LEN)), "
+             "Z.b2z (keeps_attribution (mk_err (zeros L) (Some attr_new))))) [%s]" % "; ".join("%d%%nat" % L for L in used)]
+    vals = ctx.coq_eval("c14_failb", ["LdkV.Crypto.Bytes", "LdkV.Model.OnionFail"], exprs, prelude="From Coq Require Import ZArith List.\nImport ListNotations.\n")
+    nums = [int(x) for x in re.findall(r"-?\d+", vals[0])]
+    model = {L: (nums[2 * i], nums[2 * i + 1] == 1) for i, L in enumerate(used)}
+    for l, j in zip(lines, res):
+        if not j or not j["built"]:
+            continue
+        a = kvs(l)
+        L = int(a["plen"])
+        R.n_model += 1
+        R.bump("model_failb_guard")
+        if model[L][0] != j["stages"][0]["len"]:
+            R.disagree.append({"topic": "failure packet length", "input": l[:300], "model": model[L][0], "impl": j["stages"][0]["len"]})
+        for q, st in enumerate(j["stages"][1:]):
+            if st["attr"] != model[L][1]:
+                R.disagree.append({"topic": "attribution data kept by a relaying hop (guard of process_failure_packet)", "input": l[:300], "relay": q,
+                                   "packet_data_len": L, "update_fail_htlc_len_with_attribution": L + 2 + 42 + 924, "model_keeps": model[L][1], "impl_keeps": st["attr"]})
+                break
+
+
 def check_consts(R):
     res = R.impl(["consts"])
     if not res:
@@ -533,14 +821,23 @@ def run(ctx):
         ctx.violation("harness does not build against the current tree", {"broken": "harness-build", "log_tail": out[-3000:]}, False)
         ctx.write_evidence(LEVEL)
         return
-    okm, outm = ctx.coq_make(["Model/Sphinx.vo", "Model/OnionFail.vo", "Model/SphinxInst.vo"])
+    gen_err = None
+    try:
+        generate(ctx)
+    except Exception as ex:  # rs2v refused the (changed) source: obligation broken
+        gen_err = str(ex)
+        ctx.log("rs2v generation refused:", gen_err)
+        ctx.obligations.append(("rs2v-generation Gen/C14Guards.v", False, gen_err[:400]))
+    okm, outm = ctx.coq_make(["Model/Sphinx.vo", "Model/OnionFail.vo", "Model/SphinxInst.vo", "Model/OnionPayload.vo"])
     if not okm:
         ctx.log("model does not build:", outm[-1500:])
-    proved = ctx.prove("C14") if okm else False
+    proved = (ctx.prove("C14") if okm else False) and gen_err is None
     if not okm:
         ctx.obligations.append(("Model/SphinxInst.vo", False, outm[-400:]))
     ctx.trusted_base += [
         "Coq 8.16.1 kernel + vm_compute (no native_compute)",
+        "tools/rs2v anchored-expression extraction of the guards / index arithmetic / constants of onion_utils.rs (Gen/C14Guards.v, regenerated every run; Proofs/C14Gen.v equates them with the model's)",
+        "Model/OnionPayload.v: transliteration of OutboundOnionPayload::write (fixed TLVs, chained+sorted extras), tied byte for byte on every hop of every recipient case; Codec/Tlv.v (C13) TLV loop run on the final payloads",
         "Model/Sphinx.v, Model/OnionFail.v: hand transliteration of onion_utils.rs, tied on every run by byte-for-byte functional correspondence (h_onion + lightning feature _verif_hooks)",
         "Crypto/ChaCha20.v, Crypto/Hmac.v, Crypto/Sha256.v (Gallina primitives; only their length / prefix lemmas are used by the proofs; their equality with the Rust crates is what the byte-exact correspondence checks)",
         "stated hypotheses of the theorems: no inner layer HMAC is all-zero (layers_nonzero), no spurious HMAC match at a hop before the failing one (no_spurious_match); tamper rejection is 'rejected or an explicit HMAC collision'",
@@ -558,10 +855,22 @@ def run(ctx):
         run_pay_family(R, rng.fork("pay"), ctx.tier, okm)
         run_fail_family(R, rng.fork("fail"), ctx.tier, okm)
         run_fulfill_family(R, rng.fork("fulfill"), ctx.tier, okm)
+        run_rcpt_family(R, rng.fork("rcpt"), ctx.tier, okm)
+        run_failb_family(R, rng.fork("failb"), ctx.tier, okm)
+        if ctx.tier != "quick":
+            # release build: no debug assertions, so a mis-assembled payload reaches the recipient and an
+            # over-long failure reaches the relaying hops instead of tripping the sender's / builder's assertion
+            okr, outr = ctx.build_harness(BINS, release=True)
+            if not okr:
+                R.crash = {"release_build": outr[-1500:]}
+            else:
+                run_rcpt_family(R, rng.fork("rcpt"), ctx.tier, okm, release=True)
+                run_failb_family(R, rng.fork("failb"), ctx.tier, False, release=True)
     except RuntimeError as ex:  # coq_eval failed
         R.disagree.append({"topic": "model evaluation failed", "why": str(ex)[-1500:]})
     ctx.coverage["evaluations"] = R.n_impl + R.n_model
-    ctx.coverage["distinct_nontrivial"] = R.n_model + R.hist.get("pay_fit", 0) + R.hist.get("pay_too_long", 0) + R.hist.get("fail_cases", 0) + R.hist.get("fulfill_cases", 0) + R.hist.get("raw_built", 0) + R.hist.get("raw_refused", 0)
+    ctx.coverage["translated_items"] = getattr(ctx, "gen_meta", [])
+    ctx.coverage["distinct_nontrivial"] = R.n_model + sum(v for k2, v in R.hist.items() if k2.startswith(("rcpt_", "rel_rcpt_", "failb_", "rel_failb_"))) + R.hist.get("pay_fit", 0) + R.hist.get("pay_too_long", 0) + R.hist.get("fail_cases", 0) + R.hist.get("fulfill_cases", 0) + R.hist.get("raw_built", 0) + R.hist.get("raw_refused", 0)
     ctx.coverage["rule"] = ("every case has its own keys/route/sizes (ids are hashed into node seeds and secrets), so cases are distinct by construction; non-trivial = a packet was built and walked hop by hop "
                             "(or correctly refused at the size boundary); model_* counters are cases compared byte for byte with the Gallina instance")
     ctx.coverage["histogram"] = R.hist
@@ -576,7 +885,7 @@ def run(ctx):
                        "broken_model_side": R.disagree[:2]}, True)
     broken = []
     if not proved:
-        broken.append({"obligation": "Coq proof of Props/C14.v", "detail": getattr(ctx, "proof_failure", {"where": "model build"})})
+        broken.append({"obligation": "Coq proof of Props/C14.v" if gen_err is None else "rs2v regeneration of Gen/C14Guards.v", "detail": getattr(ctx, "proof_failure", {"where": gen_err or "model build"})})
     if R.disagree:
         broken.append({"correspondence": "h_onion vs Model/SphinxInst.v", "n": len(R.disagree), "first_disagreements": R.disagree[:4]})
     if broken and not R.judge_fails and not R.crash:
